@@ -4,7 +4,7 @@
    code: given the backend's alphabetical data ("one value B e per element name, listed
    alphabetically"), the code's expression yields the values in the order the user listed the
    elements.  els = ref :: sol ++ [va] is `self.elements` (reference, solutes, 'VA'). *)
-From Coq Require Import List ZArith Arith Permutation.
+From Coq Require Import List ZArith Arith Permutation Lia.
 Require Import Kawin.C11.Model Kawin.C11.Proofs KawinRun.Gen.
 Import ListNotations.
 
@@ -173,3 +173,50 @@ Theorem C11_gen_mobility {A} (d : A) ref va sol (B : str -> A) :
   gen_HomogenizationParameters_computeHomogenizationFunction_1 (ref :: sol ++ [va]) = u.
 Proof. exact (b_mobility d ref va sol B). Qed.
 Print Assumptions C11_gen_mobility.
+
+(* ---- CompositionProfile.buildProfile (regenerated loop) ----------------------------------------------- *)
+(* the regenerated loop is the modelled loop; it fills the row of the i-th element of the MODEL's element list
+   with the steps registered for that element (in registration order), whatever the order of the registrations
+   of different elements; listing the model's elements in another order permutes the rows accordingly *)
+Theorem C11_gen_build_profile {K Step Row : Type} (keq : K -> K -> bool) (apply : Step -> Row -> Row)
+        (els : list K) (steps : list (K * list Step)) (z dr : Row) (de : K) (idx : list nat) :
+  (forall x, gen_buildProfile keq apply els steps x = buildProfile keq apply els steps x) /\
+  gen_buildProfile keq apply els steps (repeat z (length els)) = map (fun e => row_of keq apply steps e z) els /\
+  (Forall (fun i => i < length els) idx ->
+   gen_buildProfile keq apply (reorder de els idx) steps (repeat z (length idx)) =
+   reorder dr (gen_buildProfile keq apply els steps (repeat z (length els))) idx).
+Proof.
+  assert (E : forall l x, gen_buildProfile keq apply l steps x = buildProfile keq apply l steps x) by reflexivity.
+  split; [apply E|]. split.
+  - rewrite E. apply buildProfile_zero.
+  - intros Hb. rewrite !E. now apply buildProfile_equivariant.
+Qed.
+Print Assumptions C11_gen_build_profile.
+
+(* ---- PrecipitateModel._singleGrowthMulti (regenerated argument list) ----------------------------------- *)
+(* radii, Gibbs-Thomson energies, phase name and search direction handed to the backend for the phase at position
+   p are those of that phase (distinct phase names), hence the same wherever the phase is listed *)
+Theorem C11_gen_growth_inputs {P A B C : Type} (gname : P -> nat) (gbounds : P -> A) (gibbs : P -> A -> B) (gbeta : P -> C)
+        (ps : list P) (d : P) (p : nat) (idx : list nat) (i : nat) :
+  NoDup (map gname ps) ->
+  (p < length ps ->
+   gen_singleGrowthMulti_call gname gbounds gibbs gbeta ps d p = growth_inputs gname gbounds gibbs gbeta ps d p) /\
+  (Permutation idx (seq 0 (length ps)) -> i < length idx ->
+   gen_singleGrowthMulti_call gname gbounds gibbs gbeta (reorder d ps idx) d i =
+   gen_singleGrowthMulti_call gname gbounds gibbs gbeta ps d (nth i idx 0)).
+Proof.
+  intros Hn.
+  assert (E : forall l q, NoDup (map gname l) -> q < length l ->
+              gen_singleGrowthMulti_call gname gbounds gibbs gbeta l d q = growth_inputs gname gbounds gibbs gbeta l d q).
+  { intros l q Hl Hq. unfold gen_singleGrowthMulti_call, growth_inputs.
+    rewrite (particleGibbs_by_name gname gbounds gibbs l d q Hl Hq). reflexivity. }
+  split; [now apply E|].
+  intros Hp Hi.
+  assert (Hlen : length idx = length ps) by (rewrite (Permutation_length Hp); apply seq_length).
+  assert (Hb : nth i idx 0 < length ps).
+  { assert (In (nth i idx 0) (seq 0 (length ps))) by (apply (Permutation_in _ Hp), nth_In, Hi). apply in_seq in H. lia. }
+  rewrite E; [| |rewrite reorder_length; exact Hi].
+  - rewrite (E ps _ Hn Hb). now apply growth_inputs_reorder.
+  - eapply Permutation_NoDup; [|exact Hn]. apply Permutation_sym. apply Permutation_map. now apply reorder_perm.
+Qed.
+Print Assumptions C11_gen_growth_inputs.
